@@ -18,7 +18,7 @@ LEVEL_TEXT = ("Each program is evaluated under 8 (quick) / 24 (thorough) sampled
               "evidence-propagation and weight-propagation branches were taken.")
 LEVEL_NOTE = "Known wrong values under specific options are listed findings keyed by option + input class; the clean class accepts none."
 TECHNIQUE = "runtime differential monitor across configurations + reference-model oracle + reach counters"
-BUDGET = {"quick": 260, "thorough": 8000}
+BUDGET = {"quick": 260, "thorough": 3500}
 TIME_BUDGET = {"quick": 220, "thorough": 3300}
 CASE_TIMEOUT = 60
 WATCHDOG_FRACTION = 0.04
